@@ -522,8 +522,19 @@ def mode_bag_vs_list(p):
     return {"reproduced": False, "cases": cases}
 
 
+def serialising_get(dsk, keys, **kwargs):
+    """a synchronous Dask scheduler that round-trips every task and every result through pickle -- what the
+    multiprocessing / distributed schedulers do: a task works on copies, only its return value comes back"""
+    import cloudpickle
+    from dask.local import get_async, synchronous_executor
+    kwargs.pop("num_workers", None)
+    return get_async(synchronous_executor.submit, synchronous_executor._max_workers, dsk, keys,
+                     dumps=cloudpickle.dumps, loads=cloudpickle.loads, **kwargs)
+
+
 def mode_dask_classes(p):
-    """fit from per-class delayed lists (what fit_using_array / bags produce) with 2, 3, 5 classes == list training (exact)"""
+    """fit from per-class delayed lists (what fit_using_array / bags produce) with 2, 3, 5 classes == list training (exact),
+    with tasks sharing the caller's objects and with tasks running on serialised copies"""
     import dask
     O.install()
     cases = 0
@@ -534,14 +545,17 @@ def mode_dask_classes(p):
             per = [int(rs.randint(1, 3)) for _ in range(ncls)]
             X, y = labelled_stats(rs, C, D, ncls, per)
             ref = train(kind, C, D, rU, rV, X, y, 7)
-            Xd = [dask.delayed(list)([s for s, l in zip(X, y) if l == k]) for k in range(ncls)]
-            yd = [np.array([l for l in y if l == k]) for k in range(ncls)]
-            got = train(kind, C, D, rU, rV, Xd, yd, 7)
-            cases += 1
-            for nm in ("_U", "_D") + (("_V",) if kind == "jfa" else ()):
-                if not O.same(getattr(got, nm), getattr(ref, nm)):
-                    return {"reproduced": True, "cases": cases, "machine": kind, "classes": ncls,
-                            "what": "%s trained from %d per-class delayed lists differs from list training in %s (a per-class contribution lost or counted twice)" % (kind.upper(), ncls, nm.strip("_"))}
+            for sched_name, sched in (("shared", "synchronous"), ("serialised", serialising_get)):
+                Xd = [dask.delayed(list)([s for s, l in zip(X, y) if l == k]) for k in range(ncls)]
+                yd = [np.array([l for l in y if l == k]) for k in range(ncls)]
+                with dask.config.set(scheduler=sched):
+                    got = train(kind, C, D, rU, rV, Xd, yd, 7)
+                cases += 1
+                for nm in ("_U", "_D") + (("_V",) if kind == "jfa" else ()):
+                    if not O.same(getattr(got, nm), getattr(ref, nm)):
+                        return {"reproduced": True, "cases": cases, "machine": kind, "classes": ncls, "tasks": sched_name,
+                                "what": "%s trained from %d per-class delayed lists (%s tasks) differs from list training in %s (a per-class contribution "
+                                        "lost or counted twice, or an update not copied back to the caller's machine)" % (kind.upper(), ncls, sched_name, nm.strip("_"))}
     return {"reproduced": False, "cases": cases}
 
 
